@@ -506,6 +506,17 @@ class EvolvableMultiInput(EvolvableModule):
     def recreate_network(self) -> None:
         """Recreates the network with the new latent dimension."""
         feature_net = self.build_feature_extractor()
+
+        # Mutations that were disabled on a feature extractor stay disabled on its replacement
+        old_modules = self.feature_net.modules()
+        for key, module in feature_net.modules().items():
+            if key in old_modules:
+                for attr in ["_layer_mutation_methods", "_node_mutation_methods"]:
+                    enabled = getattr(old_modules[key], attr)
+                    setattr(
+                        module, attr, [m for m in getattr(module, attr) if m in enabled]
+                    )
+
         self.feature_net = EvolvableModule.preserve_parameters(
             old_net=self.feature_net, new_net=feature_net
         )
